@@ -14,6 +14,7 @@ import time
 from fractions import Fraction
 
 import numpy as np
+import os
 import z3
 
 # ----------------------------------------------------------------------------
@@ -400,7 +401,7 @@ def _fork_bin(op, a, b):
                     return _NAN if sg == 0 else sg * _INF
                 return SymReal(simp(a.t / b.t))
             ctx().assume_defined(b.t != 0, "division")
-            return SymReal(simp(a.t / b.t))
+            return SymReal(_quot(a.t, b.t))
     # exactly one special / concrete float
     f, s_ = (a, b) if sa else (b, a)      # f finite symbolic, s_ python float
     s_ = float(s_)
@@ -433,6 +434,26 @@ def _fork_bin(op, a, b):
     raise Inconclusive("special-value op %s" % op)
 
 
+def _quot(at, bt):
+    """a / b over the reals with b != 0 assumed by the caller: a common factor is cancelled structurally
+    ((p*r)/p = r), which keeps later queries free of a needless non-linear division."""
+    if z3.is_app(at) and at.decl().kind() == z3.Z3_OP_MUL:
+        ch = at.children()
+        bid = bt.get_id()
+        for i, c in enumerate(ch):
+            if c.get_id() == bid:
+                rest = ch[:i] + ch[i + 1:]
+                if not rest:
+                    return rv(1)
+                r = rest[0]
+                for x in rest[1:]:
+                    r = r * x
+                return simp(r)
+    if at.get_id() == bt.get_id():
+        return rv(1)
+    return simp(at / bt)
+
+
 def _plain_bin(op, x, y):
     if op == 'add':
         return SymReal(simp(x.t + y.t))
@@ -450,6 +471,7 @@ def _plain_bin(op, x, y):
             return SymReal(simp(x.t / y.t))
         if has_ctx():
             ctx().assume_defined(y.t != 0, "division")
+            return SymReal(_quot(x.t, y.t))
         return SymReal(simp(x.t / y.t))
 
 
@@ -586,6 +608,8 @@ class SymReal:
                 c.assume_defined(b.t != 0, "division")
             if z3.is_rational_value(a.t) and a.t.numerator_as_long() == 0:
                 return SymReal(rv(0))          # 0 / b with b != 0 assumed
+            if c is not None:
+                return SymReal(_quot(a.t, b.t))
             return SymReal(simp(a.t / b.t))
         ka, kb = _kt(a), _kt(b)
         sa = z3.If(ka == PINF, 1, z3.If(ka == NINF, -1, z3.If(a.t > 0, 1, z3.If(a.t < 0, -1, 0))))
@@ -1268,9 +1292,77 @@ class Context:
     # -- definitions
     def add_def(self, var, term, tag, deps=None):
         self.defs.append((var, var == term, tag, None))
+        # derived sign fact: a definition that is structurally a sum of squares (times non-negative factors) is >= 0.
+        # A consequence of the definition (guarded by its denominators being non-zero), stated separately so that queries
+        # about the sign need not carry the non-linear definition.
+        try:
+            guards = []
+            if self.ex is not None and self.ex.opts.get('nonneg_facts') and z3.is_real(term) and self._nonneg(term, guards):
+                nn = getattr(self, 'nonneg_vars', None)
+                if nn is None:
+                    nn = self.nonneg_vars = {}
+                nn[var.get_id()] = guards
+                fact = var >= 0
+                if guards:
+                    fact = z3.Implies(z3.And([g != 0 for g in guards]) if len(guards) > 1 else guards[0] != 0, fact)
+                self.facts.append(fact)
+        except z3.Z3Exception:
+            pass
+
+    def _nonneg(self, t, guards, depth=0):
+        if depth > 40:
+            return False
+        if z3.is_rational_value(t) or z3.is_int_value(t):
+            return t.as_fraction() >= 0 if z3.is_rational_value(t) else t.as_long() >= 0
+        if z3.is_const(t):
+            nn = getattr(self, 'nonneg_vars', {})
+            g = nn.get(t.get_id())
+            if g is None:
+                return False
+            guards.extend(g)
+            return True
+        if not z3.is_app(t):
+            return False
+        k = t.decl().kind()
+        ch = t.children()
+        if k == z3.Z3_OP_ADD:
+            return all(self._nonneg(c, guards, depth + 1) for c in ch)
+        if k == z3.Z3_OP_MUL:
+            count = {}
+            for c in ch:
+                e = count.setdefault(c.get_id(), [c, 0])
+                e[1] += 1
+            return all(n % 2 == 0 or self._nonneg(c, guards, depth + 1) for c, n in count.values())
+        if k == z3.Z3_OP_DIV:
+            if self._nonneg(ch[0], guards, depth + 1) and self._nonneg(ch[1], guards, depth + 1):
+                guards.append(ch[1])
+                return True
+            return False
+        if k == z3.Z3_OP_POWER:
+            if z3.is_int_value(ch[1]) or z3.is_rational_value(ch[1]):
+                q = ch[1].as_fraction()
+                if q.denominator == 1 and q.numerator >= 0 and q.numerator % 2 == 0:
+                    return True
+            return False
+        if k == z3.Z3_OP_ITE:
+            return self._nonneg(ch[1], guards, depth + 1) and self._nonneg(ch[2], guards, depth + 1)
+        if k == z3.Z3_OP_TO_REAL:
+            return self._nonneg(ch[0], guards, depth + 1)
+        return False
 
     def add_def_rel(self, var, formula, tag, deps=None):
         self.defs.append((var, formula, tag, None))
+
+    def supersede(self, *values):
+        """Lemma chaining: a proved equation in `pre` determines these cut variables; the relevance-staged queries then
+        leave their definitions out (hypotheses are only dropped, so an unsat verdict stays valid; the final stage is full)."""
+        s = getattr(self, 'superseded', None)
+        if s is None:
+            s = self.superseded = set()
+        for v in values:
+            t = v.t if isinstance(v, (SymReal, SymInt)) else v
+            if z3.is_const(t):
+                s.add(t.get_id())
 
     def assume_defined(self, cond, what):
         cond = simp(cond)
@@ -1357,7 +1449,7 @@ class Context:
         return list(self.pre) + list(self.pc) + [d[1] for d in self.defs] + \
             [d[0] for d in self.defined] + self.transcendental_facts()
 
-    def relevant(self, goal_terms, with_defs=True):
+    def relevant(self, goal_terms, with_defs=True, depth=None):
         """pre + definedness + those pc conjuncts / definitions in the goal's cone of influence.
 
         Cone: variables of the goal, closed under definitions; path-condition conjuncts that mention a
@@ -1376,16 +1468,25 @@ class Context:
             return hit[1]
         defvars = [(d, cached_vars(d[1])) for d in self.defs]
         used = set()
+        sup = getattr(self, 'superseded', ())
 
         def close():
+            # depth=None: full closure under definitions; depth=k: only k rounds (a shallow, cheaper abstraction:
+            # deeper cut variables stay unconstrained, which is sound for an unsat verdict)
             changed = True
-            while changed:
+            rounds = 0
+            while changed and (depth is None or rounds < depth):
                 changed = False
+                rounds += 1
+                new = {}
                 for idx, (d, vs) in enumerate(defvars):
                     if idx not in used and d[0].get_id() in cone:
                         used.add(idx)
-                        cone.update(vs)
+                        if d[0].get_id() in sup:
+                            continue          # a proved lemma in `pre` pins this variable: its definition is left out
+                        new.update(vs)
                         changed = True
+                cone.update(new)
         close()
         out = list(self.pre)
         extra = {}
@@ -1400,7 +1501,7 @@ class Context:
             if any(i in cone for i in cached_vars(cnd)):
                 out.append(cnd)
         if with_defs:
-            out += [defvars[i][0][1] for i in sorted(used)]
+            out += [defvars[i][0][1] for i in sorted(used) if defvars[i][0][0].get_id() not in sup]
         out += self.transcendental_facts()
         return out
 
@@ -1440,13 +1541,19 @@ class Context:
             nodefs = self.relevant([goal], with_defs=False)
             if len(nodefs) < len(rel):
                 stages.append(('nodefs', nodefs + [neg]))
+                last = len(nodefs)
+                for dep in ((1, 2) if ex.opts.get('shallow_stages') else ()):
+                    sh = self.relevant([goal], depth=dep)
+                    if last < len(sh) < len(rel):
+                        stages.append(('shallow', sh + [neg]))
+                        last = len(sh)
             stages.append(('relevant', rel + [neg]))
         stages.append(('full', self.all_formulas() + [neg]))
         res, model = 'unknown', None
         t_total = 0.0
         for stage, fs in stages:
-            r, m, dt = ex.solve(fs, min(timeout_ms, 5000) if stage == 'nodefs' else timeout_ms, tactic,
-                                fallback=(stage != 'nodefs'))
+            r, m, dt = ex.solve(fs, min(timeout_ms, 5000) if stage == 'nodefs' else min(timeout_ms, 10000) if stage == 'shallow' else timeout_ms,
+                                tactic, fallback=(stage not in ('nodefs', 'shallow')))
             t_total += dt
             if r == 'unsat':
                 res, model = 'unsat', None
